@@ -313,6 +313,10 @@ DIRECTED = [
     # stage lambdas with a defaulted parameter the operator never fills
     ("Select(Select(EventDataset(), lambda e, scale=2, /: (e.jets, e.met * scale)), lambda t: Count(t[0]) + t[1])", False),
     ("Select(Select(EventDataset(), lambda e, /, scale=2: {'j': e.jets, 'm': e.met * scale}), lambda t, *, k=1: Count(t.j) + t.m + k)", False),
+    # keys that are falsy values: 0, False, the empty string
+    ("Select(Select(EventDataset(), lambda e: {0: e.x, 1: e.y}), lambda d: d[0] + d[1])", False),
+    ("Select(Select(EventDataset(), lambda e: {'': e.x, 'a': e.jets}), lambda d: Count(d['a']) + d[''])", False),
+    ("Select(Where(Select(EventDataset(), lambda e: {False: e.x, True: e.y}), lambda d: d[False] > 1), lambda d: d[True])", False),
     # constant indices counted from the end
     ("Select(Select(EventDataset(), lambda e: (e.x, e.y)), lambda t: t[-1] + t[-2])", False),
     ("Select(Where(Select(EventDataset(), lambda e: [e.x, e.jets]), lambda t: t[-2] > 1), lambda t: Count(t[-1]))", False),
